@@ -6,7 +6,7 @@ package random
 // Begin block at height H: every request queued for H-1 is removed from the queue; a non-oracle request gets its
 // number stored under its id (the documented function of app hash, block time and requester); requests queued for
 // other heights and numbers of other ids are untouched; the block never aborts (C18, C13).
-//@ func BeginBlocker
+//@ func BeginBlocker(c, k)
 //@   property C18, C13
 //@   requires height >= 1 && time >= 1000000000
 //@   requires keeper.queueWF
@@ -27,7 +27,7 @@ package random
 
 // Genesis export (C12, C18): every pending request is listed under its due height - several requests due at the same
 // height are all listed (the k-th one of that height, in queue order, at position k of the height's list).
-//@ func ExportGenesis
+//@ func ExportGenesis(ctx, k)
 //@   property C12, C18
 //@   returns gs
 //@   uses cnt0(itseqof(rqueue), 0)
